@@ -266,7 +266,7 @@ func runC13(rc *RunCtx) {
 	ratio := []string{"", "", "0.5", "0.1"}[t.Choose(4)]
 	onlyHead := t.Choose(5) == 4
 	p := drawParCfg(t, len(seqs))
-	p.MaxCPU = []int{2, 3, 4, 8, 1, 6}[t.Choose(6)]
+	p.MaxCPU = []int{2, 3, 4, 8, 1, 6, -1}[t.Choose(7)]
 	p.Yield = 1 + t.Choose(4)
 	opts := []string{}
 	if dist != 1 {
@@ -288,7 +288,7 @@ func runC13(rc *RunCtx) {
 		defer cleanup(dir)
 		in := filepath.Join(dir, "in.fasta")
 		os.WriteFile(in, input, 0644)
-		args := []string{"--max-cpu", fmt.Sprint(cfg.MaxCPU), "--batch-size", fmt.Sprint(cfg.BatchSize)}
+		args := cfg.cpuArgs()
 		args = append(args, opts...)
 		args = append(args, "-o", filepath.Join(dir, "out.fasta"), in)
 		spec := CmdSpec{Name: "obiclean", Args: args, Dir: dir, PoolPolicy: cfg.Pool, YieldDensity: cfg.Yield, StderrNull: cfg.ErrNull, Policy: cfg.Policy}
